@@ -258,6 +258,11 @@ func (f *failReader) Read(p []byte) (int, error) {
 }
 func (f *failReader) Close() error { return nil }
 
+type closeFailReader struct{ r io.Reader }
+
+func (c *closeFailReader) Read(p []byte) (int, error) { return c.r.Read(p) }
+func (c *closeFailReader) Close() error               { return errors.New("verif: injected close failure") }
+
 // cancelReader cancels the request context once `after` bytes were delivered.
 type cancelReader struct {
 	r      io.Reader
@@ -644,7 +649,11 @@ func (s *Sandbox) Do(r Req, before *Node) (Derived, Obs, *Node) {
 	} else {
 		d.PfForm = "allprop"
 		if r.Method == "PUT" {
-			if r.FailAfter >= 0 && r.FailAfter <= len(r.Body) {
+			if r.FailAfter == -2 {
+				// every byte arrives and EOF is reported; only Close fails (what a verifying
+				// wrapper around the body does): the upload is complete, the answer must say so
+				body = &closeFailReader{r: strings.NewReader(r.Body)}
+			} else if r.FailAfter >= 0 && r.FailAfter <= len(r.Body) {
 				// fails after FailAfter bytes; a body that fails exactly at its end never reports EOF either
 				body = &failReader{data: []byte(r.Body), left: r.FailAfter}
 				d.BodyFails = true
